@@ -204,6 +204,9 @@ func verifyFunctionOpt(P *Program, fn *ssa.Function, props []string, opt func(*E
 		fr.confine = confine
 	}
 	e.stack = []*ssa.Function{fn}
+	if len(ct.Yields) > 0 {
+		e.yieldsCheck(fn, ct)
+	}
 	outs := e.execFrom(fr, st, fn.Blocks[0], nil, 0)
 	res.Returns = len(outs)
 	for _, o := range outs {
@@ -476,10 +479,69 @@ func (e *Exec) applyContract(fr *Frame, st State, fn *ssa.Function, ct *FuncCont
 		st = e.useFacts(st, penv)
 		st = st.assume(g)
 	}
+	// results declared to be functions of the arguments (established by yieldsCheck)
+	for _, y := range ct.Yields {
+		penv.cur = st
+		var as []*Term
+		for _, a := range y.Args {
+			as = append(as, penv.eval(a).v...)
+		}
+		v := penv.eval(y.Val)
+		if len(v.v) != 1 {
+			e.fail("yields: scalar expected")
+		}
+		st = st.assume(e.c.Eq(e.c.Apply("fn."+y.Name, v.v[0].S, as...), v.v[0]))
+	}
 	if st.pcFalse() {
 		return nil
 	}
 	return []Outcome{{st: st, ret: ret}}
+}
+
+// termSymbols collects the names of all variables (scalars and arrays) and uninterpreted
+// functions in t.
+func termSymbols(t *Term, seen map[*Term]bool, out map[string]bool) {
+	if seen[t] {
+		return
+	}
+	seen[t] = true
+	if t.Op == OVar || t.Op == OApply {
+		out[t.Name] = true
+	}
+	for _, a := range t.Args {
+		termSymbols(a, seen, out)
+	}
+}
+
+// yieldsCheck: the function is functionally pure (purity.go) and every yielded expression reads
+// results only; callers may then assume fn.<name>(args) == expr.
+func (e *Exec) yieldsCheck(fn *ssa.Function, ct *FuncContract) {
+	why := functionalPure(fn, map[*ssa.Function]bool{})
+	results := map[string]bool{}
+	for _, r := range ct.Results {
+		results[r] = true
+	}
+	for _, y := range ct.Yields {
+		bad := why
+		if bad == "" && !yieldExprOK(y.Val, results) {
+			bad = "the yielded expression must be a scalar result, result[const] or len(result)"
+		}
+		for _, a := range y.Args {
+			if id, ok := a.(EIdent); !ok || results[id.Name] {
+				bad = "the arguments of a yields function must be parameters"
+			}
+		}
+		ob := &Obligation{Name: shortFn(fn.String()) + "#functional:" + y.Name, Kind: "functional", Label: y.Name, Func: fn.String(),
+			Pos: e.P.pos(fn.Pos()), ctx: e.c, exec: e, Goal: y.Name + " is a function of the arguments (syntactic purity of " + shortFn(fn.String()) + ")",
+			Trivial: true, Solver: "purity analysis", Props: e.curProps}
+		if bad == "" {
+			ob.Result = "unsat"
+		} else {
+			ob.Result = "sat"
+			ob.Output = bad
+		}
+		e.obls = append(e.obls, ob)
+	}
 }
 
 // ---------- loops ----------
